@@ -26,7 +26,7 @@ RULE = ("seeded histories of 1-8 steps over harvest_combos (incl. Ellipsis), har
         "prefix; non-trivial from the second step on")
 ASSUMPTIONS = [
     "attributes of merged datasets are not judged (xarray's merge decides them); values, labels and variables are",
-    "sync=False steps are generated only for memory-only harvesters (documented load-before/save-after semantics would otherwise discard them by design)",
+    "sync=False steps are generated for memory-only harvesters, before the file exists, and as runs that end in a step which saves the current memory (drop_sel / expand_dims / save_full_ds); an un-synced step followed directly by a synced harvest is not generated (its load-before semantics discard the un-synced data by design)",
     "after a bare save_merge_ds on the harvester's file the next step runs in a new session (a live Harvester caches full_ds)",
 ]
 SHARDS = {"quick": 8, "thorough": 16}
@@ -38,6 +38,7 @@ MIN_REACH = {
     "overwrites_applied": {"quick": 40, "thorough": 700},
     "failed_saves": {"quick": 25, "thorough": 400},
     "older_session_reused": {"quick": 12, "thorough": 200},
+    "memory_persisted_after_unsynced_steps": {"quick": 12, "thorough": 200},
     "unsynced_steps_before_first_save": {"quick": 25, "thorough": 400},
 }
 TIME_BUDGET = {"quick": 400, "thorough": 3400}
@@ -105,6 +106,21 @@ def cases(ctx):
                     st["b"] = rng.sample(B_VALS + ["uu", "vwx"], len(st["b"]))
                     if st["op"] == "cases":
                         st["pts"] = list(dict.fromkeys((a, rng.choice(B_VALS + ["uu", "vwx"])) for a, _ in st["pts"]))
+        # a run of harvests kept in memory only (sync=False) AFTER the file exists, then a step that saves the current
+        # memory (drop_sel / expand_dims / save_full_ds): everything harvested in between must reach the disk
+        if not mem_only and len(steps) >= prefix + 1 and rng.random() < 0.25:
+            at = rng.randint(prefix + 1, len(steps))        # (after the first synced step, which creates the file)
+            nrun = rng.randint(1, 2)
+            ins = []
+            for _ in range(nrun):
+                st_ = {"op": rng.choice(["combos", "cases", "add_ds"]), "policy": rng.choice([None, True, False]), "version": 0,
+                       "new_session": False, "reuse_old": False, "nosync": True,
+                       "a": rng.sample(A_VALS, rng.randint(1, 2)), "b": rng.sample(B_VALS, rng.randint(1, 2)), "c": [C_VALS[0]]}
+                st_["pts"] = rng.sample([(a, b) for a in A_VALS for b in B_VALS], rng.randint(1, 3))
+                ins.append(st_)
+            ins.append({"op": "persist", "policy": None, "version": 0, "new_session": False, "reuse_old": False,
+                        "a": [1], "b": ["u"], "c": [C_VALS[0]], "how": rng.choice(["drop_sel", "drop_sel", "expand", "save"])})
+            steps[at:at] = ins
         kind = rng.choice(["float", "multi:s,a3", "int", "intfloat", "intfloat"])
         if kind == "intfloat":
             # whole numbers first, fractional ones later (and dense little grids, so that no hole keeps the dtype wide)
@@ -208,6 +224,8 @@ def run_case(ctx, case):
         for p in points:
             for d in dims:
                 axes[d].add(p[d])
+                if d == "a" and isinstance(p[d], float):
+                    state["a_float"] = True
         return len(confl)
 
     def judge(step_desc, synced):
@@ -265,7 +283,9 @@ def run_case(ctx, case):
             st = dict(st, new_session=False)
             if op == "save_merge":
                 op = "add_ds"
-        sync = not case["mem_only"] and istep >= case.get("unsynced_prefix", 0)
+        sync = not case["mem_only"] and istep >= case.get("unsynced_prefix", 0) and not st.get("nosync")
+        if st.get("nosync"):
+            ctx.count("unsynced_steps_after_the_file_exists")
         if not sync and not case["mem_only"]:
             ctx.count("unsynced_steps_before_first_save")
         if (st["new_session"] or force_new) and not case["mem_only"]:
@@ -329,6 +349,8 @@ def run_case(ctx, case):
                         # harvested the coordinate is a float one, and the function is handed 4.0 where 4 was swept
                         aco = sorted(axes["a"])
                         if any(isinstance(x, float) for x in aco):
+                            state["a_float"] = True
+                        if state.get("a_float"):        # (dropping the fractional labels again does not make it an int axis)
                             aco = [float(x) for x in aco]
                         pts = [dict(p, a=a) for a in aco for p in
                                [dict(zip([k for k in combos if k != "a"], v)) for v in
@@ -369,6 +391,31 @@ def run_case(ctx, case):
                         h = xyzpy.Harvester(new_runner(ver), data_name=data_name, engine=engine)
                         alive.append(h)
                         ctx.count("new_sessions")
+                elif op == "persist":
+                    # save what is in memory now: through drop_sel of an existing label, expand_dims, or save_full_ds
+                    how = st["how"]
+                    cand = [(d, sorted(axes[d], key=str)) for d in ("a", "b") if len(axes.get(d, ())) >= 2]
+                    if how == "drop_sel" and cand and model:
+                        dim, labs = cand[istep % len(cand)]
+                        lab = labs[istep % len(labs)]
+                        desc = "drop_sel(%s=[%r]) after un-synced harvests" % (dim, lab)
+                        h.drop_sel({dim: [lab]})
+                        i = dims.index(dim)
+                        for c in [c for c in model if c[i] == lab]:
+                            del model[c]
+                        axes[dim] -= {lab}
+                    elif how == "expand" and not expanded and model:
+                        desc = "expand_dims('c', 10) after un-synced harvests"
+                        h.expand_dims("c", 10)
+                        dims.insert(0, "c")
+                        axes["c"] = {10}
+                        for c in list(model):
+                            model[(10,) + c] = model.pop(c)
+                    else:
+                        desc = "save_full_ds() after un-synced harvests"
+                        if h.full_ds is not None:
+                            h.save_full_ds()
+                    ctx.count("memory_persisted_after_unsynced_steps")
                 elif op == "drop_sel":
                     dim, labels = st["dim"], [l for l in st["labels"] if l in axes[st["dim"]]]
                     desc = "drop_sel(%s=%s)" % (dim, labels)
@@ -380,7 +427,9 @@ def run_case(ctx, case):
                         axes[dim] -= set(labels)
                 elif op == "expand":
                     desc = "expand_dims('c', %r)" % (st["value"],)
-                    if model and h.full_ds is not None:
+                    if expanded:
+                        desc += " [skipped: already expanded]"
+                    elif model and h.full_ds is not None:
                         h.expand_dims("c", st["value"])
                         dims.insert(0, "c")
                         axes["c"] = {st["value"]}
